@@ -360,7 +360,19 @@ def run_real(case):
     c = build_circuit(case['spec'])
     res = {}
     with common.quiet():
-        s = stil.parse(case['text'])
+        s = common.after_failed_parse(stil.parse, case['text'])
+        if sum(map(ord, case['text'][:200])) % 5 < 2:
+            # the same StilFile object has already served ANOTHER circuit (same netlist, ports and state elements declared in the
+            # reverse order): what it returns for `c` must not depend on that history
+            spec2 = dict(case['spec']); steps = list(spec2['steps'])
+            spec2['steps'] = [st for st in reversed(steps)]
+            spec2['io_order'] = list(reversed(spec2['io_order']))
+            try:
+                c2 = build_circuit(spec2)
+                for fn in ('tests', 'responses', 'tests_loc'):
+                    try: getattr(s, fn)(c2)
+                    except Exception: pass
+            except Exception: pass
         for fn in ('tests', 'responses'):
             try:
                 res[fn] = ('ok', cols_of(getattr(s, fn)(c)))
